@@ -7,5 +7,5 @@ git apply --check "$P" || { echo "patch does not apply"; exit 2; }
 git apply "$P"
 cd /verif
 ./check $ID --tier $TIER > /tmp/try_$ID.out 2> /tmp/try_$ID.err; rc=$?
-git -C /repo checkout -- . 
+git -C /repo apply -R "$P" || git -C /repo checkout -- .
 echo "rc=$rc"; grep -E "^(VIOLATION|INCONCLUSIVE|OK|KNOWN)" /tmp/try_$ID.out | cut -c1-220 | head -8; grep -E "violated|INFRA" /tmp/try_$ID.err | cut -c1-200 | head -5
